@@ -105,8 +105,12 @@ func c10BatchMain(args []string) int {
 		debug.SetGCPercent(50)
 	case "100":
 	default:
+		lim := int64(256)
+		if v := os.Getenv("VERIF_C10_MEMLIMIT_MB"); v != "" {
+			fmt.Sscan(v, &lim)
+		}
 		debug.SetGCPercent(-1)
-		debug.SetMemoryLimit(1 << 30)
+		debug.SetMemoryLimit(lim << 20)
 	}
 	if pf := os.Getenv("VERIF_C10_PROF"); pf != "" { // cost diagnosis of the harness itself
 		if f, err := os.Create(pf); err == nil {
